@@ -947,8 +947,11 @@ class AggregateBase(UnitsManaged, Saveable, OpenSystem):
 
                     if state1.band == 1:
 
-                        kk = state1.index - 1
-                        ll = state2.index - 1
+                        # the molecules which are excited: their positions
+                        # in the signatures (the running number of a state
+                        # does not count molecules without excited levels)
+                        kk = list(state1.elsignature).index(1)
+                        ll = list(state2.elsignature).index(1)
 
                         if (kk >= 0) and (ll >= 0):
                             coup = self.resonance_coupling[kk,ll]
@@ -1010,8 +1013,11 @@ class AggregateBase(UnitsManaged, Saveable, OpenSystem):
                     # single exciton band
                     if es1.band == 1:
 
-                        kk = es1.index - 1
-                        ll = es2.index - 1
+                        # the molecules which are excited: their positions
+                        # in the signatures (the running number of a state
+                        # does not count molecules without excited levels)
+                        kk = list(es1.elsignature).index(1)
+                        ll = list(es2.elsignature).index(1)
 
                         if (kk >= 0) and (ll >= 0):
                             coup = self.resonance_coupling[kk,ll]*fc
